@@ -1,5 +1,5 @@
 (* Property C01 — the wallet ledger equals what the best chain pays to its addresses.
-   Only statements here; proofs are in Ledger/Proofs.v.
+   Only statements here; proofs are in Ledger/Proofs*.v.
    Model: Ledger/Model.v (filterTx, filterBlock, insertMinedTx, updateMinedBalance, AddCredits,
    Rollback, reorg, processConnectedBlock, ScriptAddressBalance/Unspents), histories: Ledger/Run.v,
    specification: Ledger/Spec.v, environment assumptions: Ledger/WF.v. *)
@@ -7,6 +7,7 @@ From Coq Require Import List ZArith NArith Bool.
 Import ListNotations.
 Open Scope Z_scope.
 Require Import MW.Ledger.Model MW.Ledger.Spec MW.Ledger.Run MW.Ledger.WF.
+Require Import MW.Ledger.Proofs MW.Ledger.Proofs2 MW.Ledger.Proofs3.
 
 (* The code as first found asked ExistCreditFromTx through a separate read transaction, i.e.
    against the committed store, while the reorg's write transaction was open ([a1fix] = false).
@@ -53,4 +54,40 @@ Print Assumptions C01_unfixed_refuted.
 Example C01_fixed_on_witness :
   let s := run p0 true g0 hist0 in
   model_report (s_wallet s) 1%N = spec_report p0 (own_of (s_own s)) (s_node s) 1%N.
+Proof. vm_compute. reflexivity. Qed.
+
+(* T1: a wallet that follows a well-formed chain block by block succeeds, and reports exactly what
+   the chain pays to the ready wallets' addresses and has not spent (rows as equal lists, chain order) *)
+Theorem C01_follow_refines_chain : forall p own c, wf_chain c ->
+  exists st, ledger_of_chain p true own c = Ok st /\
+             forall w, model_report st w = spec_report p own c w.
+Proof. exact follow_refines_chain. Qed.
+Print Assumptions C01_follow_refines_chain.
+
+(* T2: rolling the ledger of a chain back to height k gives exactly the ledger of the prefix of height k *)
+Theorem C01_rollback_inverse : forall p own c st k,
+  wf_chain c -> ledger_of_chain p true own c = Ok st -> 0 <= k <= chain_height c ->
+  exists st', ledger_of_chain p true own (firstn (Z.to_nat k + 1) c) = Ok st' /\
+              rollback_to st (k + 1) = st'.
+Proof. exact rollback_inverse. Qed.
+Print Assumptions C01_rollback_inverse.
+
+(* T3: the node announces its tip b (not the genesis, which is never announced) to a wallet whose
+   ledger is that of ANY well-formed chain c with the same genesis (any fork depth, wallet behind or
+   ahead), block ids naming one block across the two chains: processing succeeds and the ledger
+   becomes the ledger of the node's chain.
+   [same_genesis c n] := exists g c' n', c = g :: c' /\ n = g :: n';
+   [ids_agree c n] := forall b1 b2, In b1 c -> In b2 n -> b_id b1 = b_id b2 -> b1 = b2. *)
+Theorem C01_process_reorg : forall p own n c st b,
+  wf_chain n -> wf_chain c -> same_genesis c n -> ids_agree c n ->
+  ledger_of_chain p true own c = Ok st ->
+  (exists n1, n1 <> [] /\ n = n1 ++ [b]) ->
+  exists st', process p true own n st b = Ok st' /\ ledger_of_chain p true own n = Ok st'.
+Proof. exact process_reorg. Qed.
+Print Assumptions C01_process_reorg.
+
+(* why the genesis is excluded in T3: a genesis whose prev field equals the id of the wallet's tip
+   (here: its own id) would be "connected" on top of itself *)
+Example C01_genesis_announcement_excluded :
+  process p0 true (fun _ => None) [g0] (init_state 0) g0 = Ok {| credits := []; synced := [(0, 0%N); (0, 0%N)] |}.
 Proof. vm_compute. reflexivity. Qed.
